@@ -4,3 +4,4 @@ pub mod spy;
 pub mod stats;
 pub mod refmodel;
 pub mod runner;
+pub mod rnuts;
